@@ -8,3 +8,4 @@ import Proofs.RenderReal
 import Proofs.RenderLinear
 import Proofs.RenderDC
 import Proofs.RenderTab
+import Proofs.RenderConv
